@@ -114,6 +114,10 @@ func (u *Up) serve(uc *UpConn) {
 			}
 			beh = beh[3:]
 		}
+		bare := false
+		if strings.HasPrefix(beh, "bare") { // bareok:<micros> | baredup:<micros>: the answer has no body
+			bare, beh = true, beh[4:]
+		}
 		switch {
 		case strings.HasPrefix(beh, "ok:"), strings.HasPrefix(beh, "dup:"):
 			a := *a
@@ -133,7 +137,7 @@ func (u *Up) serve(uc *UpConn) {
 					if k > 0 {
 						kind = "dup"
 					}
-					u.Reply(a.Conn, a.UID, a.Tok, kind)
+					u.ReplyBody(a.Conn, a.UID, a.Tok, kind, bare)
 				}
 			}()
 		}
@@ -154,6 +158,11 @@ func (uc *UpConn) write(b []byte) error {
 // Reply writes a success response with the given id echoing tok in header and body. The usend event is
 // emitted before the bytes are written. Returns false when the connection is gone.
 func (u *Up) Reply(uc *UpConn, uid uint32, tok, kind string) bool {
+	return u.ReplyBody(uc, uid, tok, kind, false)
+}
+
+// ReplyBody is Reply; with bare the response echoes tok in its header only and has no body at all.
+func (u *Up) ReplyBody(uc *UpConn, uid uint32, tok, kind string, bare bool) bool {
 	if uc == nil {
 		return false
 	}
@@ -162,9 +171,12 @@ func (u *Up) Reply(uc *UpConn, uid uint32, tok, kind string) bool {
 		uc.wmu.Unlock()
 		return false
 	}
-	u.emit(map[string]interface{}{"ev": "usend", "tok": tok, "uid": uid, "kind": kind})
+	u.emit(map[string]interface{}{"ev": "usend", "tok": tok, "uid": uid, "kind": kind, "bare": bare})
 	f := &Frame{Type: 0, Cmd: 2, ID: uid, Status: 0, Class: "com.alipay.sofa.rpc.core.response.SofaResponse",
 		Header: [][2]string{{"token", tok}, {"pad", strings.Repeat("h", len(tok)%7)}}, Content: []byte(tok)}
+	if bare {
+		f.Content = nil
+	}
 	uc.c.SetWriteDeadline(time.Now().Add(10 * time.Second))
 	_, err := uc.c.Write(f.Encode())
 	uc.wmu.Unlock()
